@@ -19,6 +19,7 @@ type addr struct {
 	owner   types.Type
 	field   int
 	rootTyp types.Type // type of the value stored at the base location
+	baseVal ssa.Value  // leaf: the SSA value of the object pointer
 	path    []pathElem
 	typ     types.Type // type of the addressed value
 }
@@ -44,7 +45,7 @@ func (fe *FuncEnc) addrOf(st *State, v ssa.Value) addr {
 		if isStructVal(et) {
 			return addr{ptr: fe.val(x), rootTyp: et, typ: et}
 		}
-		return addr{ptr: fe.val(x.X), leaf: true, owner: stT, field: x.Field, rootTyp: et, typ: et}
+		return addr{ptr: fe.val(x.X), leaf: true, owner: stT, field: x.Field, rootTyp: et, typ: et, baseVal: x.X}
 	case *ssa.IndexAddr:
 		if pt, isPtr := x.X.Type().Underlying().(*types.Pointer); isPtr {
 			if _, ok := fe.localRoot(x.X); ok || fe.isPathAddr(x.X) {
@@ -244,7 +245,11 @@ func (fe *FuncEnc) instr(ins ssa.Instruction, st *State) {
 		if a.local == nil && len(a.path) == 0 {
 			fe.nilCheck(st, a.ptr, x.Pos(), "store")
 		}
+		if a.leaf {
+			fe.curTarget = a.baseVal
+		}
 		fe.store(st, a, fe.val(x.Val))
+		fe.curTarget = nil
 	case *ssa.Slice:
 		fe.sliceOp(x, st)
 	case *ssa.MakeSlice:
@@ -294,11 +299,21 @@ func (fe *FuncEnc) instr(ins ssa.Instruction, st *State) {
 		mt := x.Map.Type().Underlying().(*types.Map)
 		m := fe.val(x.Map)
 		fe.oblige(st, "nil", "", "(not (= "+m+" 0))", x.Pos(), "assignment to entry in nil map")
+		fe.curTarget = x.Map
 		fe.mapStore(st, mt, m, fe.val(x.Key), fe.val(x.Value), true)
+		fe.curTarget = nil
 	case *ssa.Range:
 		r := fe.sc.declare("iter", sInt)
 		fe.vals[x] = r
 		fe.rangeOf[r] = x
+		if mt, isMap := x.X.Type().Underlying().(*types.Map); isMap {
+			// ghost set of keys already produced by this iteration
+			key := "visited:" + x.Name()
+			srt := "(Array " + fe.sorts().sortOf(mt.Key()) + " Bool)"
+			fe.ghostSorts[key] = srt
+			st.ghost[key] = fmt.Sprintf("((as const %s) false)", srt)
+			fe.noteWrite("ghost:" + key)
+		}
 	case *ssa.Next:
 		fe.next(x, st)
 	case *ssa.Call:
@@ -440,10 +455,15 @@ func (fe *FuncEnc) unop(x *ssa.UnOp, st *State) {
 		if a.local == nil && len(a.path) == 0 {
 			fe.nilCheck(st, a.ptr, x.Pos(), "load")
 		}
+		fe.loadTop = ""
 		fe.setVal(x, fe.load(st, a))
 		if a.local == nil {
+			if !(a.leaf || len(a.path) == 0) || isStructVal(a.rootTyp) {
+				fe.loadTop = "" // composite loads read several versions
+			}
 			fe.assume(st, fe.typeFacts(st, fe.vals[x], x.Type()))
 		}
+		fe.loadTop = ""
 	case token.NOT:
 		fe.setVal(x, not(fe.val(x.X)))
 	case token.SUB:
@@ -778,8 +798,76 @@ func (fe *FuncEnc) next(x *ssa.Next, st *State) {
 			facts = append(facts, fe.typeFacts(st, v, tt.At(2).Type()))
 		}
 		facts = append(facts, fe.typeFacts(st, k, tt.At(1).Type()))
+		key := "visited:" + rng.Name()
+		if vis, okv := st.ghost[key]; okv {
+			srt := fe.ghostSorts[key]
+			ks := fe.sorts().sortOf(mt.Key())
+			facts = append(facts, fmt.Sprintf("(not (select %s %s))", vis, k))
+			fe.assume(st, implies(ok, and(facts...)))
+			// when the iteration ends every entry still present has been produced
+			// (not valid if the loop inserts into a map of this type: then skipped)
+			if guard, can := fe.loopInsertGuard(x, mt, m); can {
+				has := fe.mapHasArr(st, mt, m)
+				fe.assume(st, implies(and(not(ok), guard), fmt.Sprintf("(forall ((k %s)) (! (=> (select %s k) (select %s k)) :pattern ((select %s k))))", ks, has, vis, has)))
+			}
+			nv := fe.sc.define("visited", srt, ite(ok, fmt.Sprintf("(store %s %s true)", vis, k), vis))
+			st.ghost[key] = nv
+			fe.noteWrite("ghost:" + key)
+			return
+		}
 		fe.assume(st, implies(ok, and(facts...)))
 	}
+}
+
+// loopInsertGuard returns the condition under which the "every remaining
+// entry has been produced" fact holds at the end of a map iteration: no
+// insertion into the iterated map happens inside the loop. Insertions into
+// other maps of the same type are allowed provided they are provably
+// different maps (the disequalities are returned as the guard). ok=false means
+// the fact must not be assumed at all.
+func (fe *FuncEnc) loopInsertGuard(x *ssa.Next, mt *types.Map, m string) (string, bool) {
+	var guards []string
+	for _, li := range fe.loops {
+		if !li.blocks[x.Block()] {
+			continue
+		}
+		for b := range li.blocks {
+			for _, ins := range b.Instrs {
+				switch y := ins.(type) {
+				case *ssa.MapUpdate:
+					if !types.Identical(y.Map.Type().Underlying(), mt) {
+						continue
+					}
+					// the updated map must be a value computed before the loop
+					switch d := y.Map.(type) {
+					case *ssa.Parameter, *ssa.FreeVar:
+					case ssa.Instruction:
+						if li.blocks[d.Block()] {
+							return "", false
+						}
+					default:
+						return "", false
+					}
+					guards = append(guards, fmt.Sprintf("(not (= %s %s))", m, fe.val(y.Map)))
+				case *ssa.Call:
+					c := y.Common()
+					if _, isBuiltin := c.Value.(*ssa.Builtin); isBuiltin {
+						continue
+					}
+					if callee := c.StaticCallee(); callee != nil {
+						if ct := fe.eng.contractFor(callee); ct != nil && (ct.Pure || (ct.HasAssigns && len(ct.Assigns) == 0)) {
+							continue
+						}
+						if fe.eng.isPureExternal(callee) {
+							continue
+						}
+					}
+					return "", false // a call that may write maps
+				}
+			}
+		}
+	}
+	return and(guards...), true
 }
 
 func (fe *FuncEnc) ret(x *ssa.Return, st *State) {
@@ -878,7 +966,7 @@ func (fe *FuncEnc) frameFormula(hv, cur string) string {
 			excl = append(excl, eq(x, l.addr))
 		}
 	}
-	body := implies(and(fmt.Sprintf("(not (= %s 0))", x), fmt.Sprintf("(<= (hv_base %s) %s)", x, fe.entry.allocTop), not(or(excl...))), fmt.Sprintf("(= (select %s %s) (select %s %s))", cur, x, old, x))
+	body := implies(and(fmt.Sprintf("(< 0 (hv_base %s))", x), fmt.Sprintf("(<= (hv_base %s) %s)", x, fe.entry.allocTop), not(or(excl...))), fmt.Sprintf("(= (select %s %s) (select %s %s))", cur, x, old, x))
 	return fmt.Sprintf("(forall ((%s Int)) (! %s :pattern ((select %s %s))))", x, body, cur, x)
 }
 
